@@ -35,3 +35,22 @@ fn range_check_is_any_visible_sample_2x2_420_12bit() {
     kani::cover!(bad); kani::cover!(!bad);
     match r { Ok(_) => assert!(!bad), Err(e) => { assert!(bad); assert!(e == YuvError::InvalidData); } }
 }
+// C12 "no VISIBLE sample exceeds 2^n-1": samples in the right-hand stride padding (and below the visible rows) are not visible and must not
+// be scanned. Luma plane 2x2 visible inside a 4-wide, 3-row buffer whose padding holds arbitrary (symbolic) samples, 10-bit.
+#[kani::proof]
+#[kani::unwind(14)]
+fn range_check_ignores_stride_padding_2x2_in_4x3() {
+    let buf: [u16; 12] = kani::any();
+    let u: [u16; 4] = kani::any(); let v: [u16; 4] = kani::any();
+    let mut py = Plane::from_slice(&buf, 4);
+    py.cfg.width = 2; py.cfg.height = 2; py.cfg.xpad = 2; py.cfg.ypad = 1;
+    let frame: Frame<u16> = Frame { planes: [py, Plane::from_slice(&u, 2), Plane::from_slice(&v, 2)] };
+    let r = Yuv::new(frame, cfg(10, (0, 0)));
+    let vis = [buf[0], buf[1], buf[4], buf[5]];
+    let mut bad = false;
+    let mut i = 0;
+    while i < 4 { if vis[i] > 1023 || u[i] > 1023 || v[i] > 1023 { bad = true; } i += 1; }
+    kani::cover!(!bad && buf[2] > 1023);      // junk in the padding of an otherwise valid frame
+    kani::cover!(!bad && buf[9] > 1023);
+    match r { Ok(y) => { assert!(!bad); assert!(y.width() == 2 && y.height() == 2); }, Err(e) => { assert!(bad); assert!(e == YuvError::InvalidData); } }
+}
